@@ -122,7 +122,7 @@ def main(inp, outp):
             # ---- 2. maneuver sequencing --------------------------------------------------------------------------------
             unit = T / 8
             x0 = np.array([-600.0, -1500.0, 200.0, 0.3, 1.1, -0.2])
-            for tl in job["timelines"]:
+            for ti, tl in enumerate(job["timelines"]):
                 mans = []
                 for m in tl["mans"]:
                     d = EPOCH + timedelta(seconds=m["t"] * unit)
@@ -131,7 +131,10 @@ def main(inp, outp):
                     else:
                         # the stop date is the grid date itself (no second rounding), so that timelines stay chronological
                         stop = EPOCH + timedelta(seconds=(m["t"] + m["dur"]) * unit)
-                        mans.append(ContinuousMan(d, stop - d, accel=VECS[m["v"] - 1] * 1e-3))
+                        # the same burn described by its start, its middle or its end (date_pos), in turn
+                        pos = ("start", "median", "stop")[(ti + len(mans)) % 3]
+                        anchor = {"start": d, "median": d + (stop - d) / 2, "stop": stop}[pos]
+                        mans.append(ContinuousMan(anchor, stop - d, accel=VECS[m["v"] - 1] * 1e-3, date_pos=pos))
                 orb = Orbit(x0, EPOCH, "cartesian", "Hill", prop)
                 orb.maneuvers = mans
                 qd = EPOCH + timedelta(seconds=tl["query"] * unit)
